@@ -188,3 +188,124 @@ M.contract(P_RM + ':MergedRanges.is_everything', params=dict(self=MERGED), ghost
                iff(result, (not self.is_empty) and self.head is None and self.tail is None and len(self.body) == 0),
                'then-every-number-is-denoted': lambda self, n, result: implies(result, merged_mem(self, n)),
            }, raises_only=())
+
+# ------------------------------------------------------------------------------ merging sorted segments
+# Normal form of a list of segments: every segment non-empty, ascending, and between two consecutive
+# segments lies at least one number that belongs to neither (disjoint and non-adjacent).
+
+
+def all_valid(xs):
+    return forall_range(0, len(xs), lambda k: xs[k][0] <= xs[k][1])
+
+
+def separated(xs):
+    return forall_range(0, len(xs) - 1, lambda k: xs[k][1] + 1 < xs[k + 1][0])
+
+
+def normal_form(xs):
+    return all_valid(xs) and separated(xs)
+
+
+def in_some(xs, n):
+    return exists_range(0, len(xs), lambda k: seg_mem(xs[k], n))
+
+
+def in_some_before(xs, end, n):
+    return exists_range(0, end, lambda k: seg_mem(xs[k], n))
+
+
+def all_from_ge(xs, lo):
+    return forall_range(0, len(xs), lambda k: xs[k][0] >= lo)
+
+
+M.contract(P_RM + ':_merge_segments',
+           params=dict(segments=ListOf(PAIR, min_len=1)), ghosts=dict(n=Int, lo=Int), returns=MListOf(PAIR),
+           # call site (merge): the valid segments, sorted
+           requires=lambda segments: all_valid(segments) and forall_range(
+               0, len(segments) - 1, lambda j: segments[j][0] <= segments[j + 1][0]),
+           ensures={
+               'same-numbers': lambda segments, result, n: iff(in_some(result, n), in_some(segments, n)),
+               'normal-form': lambda result: len(result) >= 1 and normal_form(result),
+               'no-segment-starts-before-the-first-start': lambda segments, result, lo:
+               implies(all_from_ge(segments, lo), all_from_ge(result, lo)),
+           }, raises_only=())
+
+M.loop(P_RM + ':_merge_segments', 0,
+       invariant=lambda _i, segments, ret_val, current, n, lo:
+       current[0] <= current[1]
+       and (_i + 1 >= len(segments) or current[0] <= segments[_i + 1][0])
+       and normal_form(ret_val)
+       and (len(ret_val) == 0 or ret_val[len(ret_val) - 1][1] + 1 < current[0])
+       and iff(in_some(ret_val, n) or seg_mem(current, n), in_some_before(segments, _i + 1, n))
+       and implies(all_from_ge(segments, lo), all_from_ge(ret_val, lo) and current[0] >= lo),
+       modifies=dict(ret_val=MListOf(PAIR), current=PAIR, next_='local'))
+
+# ------------------------------------------------------------------------------ merging with the head / the tail
+# head `h` stands for (-oo, h], tail `t` for [t, +oo).  The segments are in normal form (result of
+# _merge_segments); the segments that are not absorbed are appended to the (empty) output list.
+
+M.contract(P_RM + ':_merge_head_to',
+           params=dict(initial=Int, segments=ListOf(PAIR), non_merged__out__sorted=MListOf(PAIR)),
+           ghosts=dict(n=Int), returns=Int, modifies=('non_merged__out__sorted',),
+           requires=lambda segments, non_merged__out__sorted:
+           normal_form(segments) and len(non_merged__out__sorted) == 0,
+           old=lambda initial: initial,
+           ensures={
+               'same-numbers': lambda initial, segments, non_merged__out__sorted, n, result:
+               iff(n <= result or in_some(non_merged__out__sorted, n), n <= initial or in_some(segments, n)),
+               'head-only-grows': lambda initial, result: result >= initial,
+               'the-rest-is-a-suffix-of-the-segments': lambda segments, non_merged__out__sorted:
+               len(non_merged__out__sorted) <= len(segments)
+               and forall_range(0, len(non_merged__out__sorted), lambda k:
+               non_merged__out__sorted[k] == segments[len(segments) - len(non_merged__out__sorted) + k]),
+               'the-rest-is-in-normal-form': lambda non_merged__out__sorted: normal_form(non_merged__out__sorted),
+               'a-line-number-lies-between-the-head-and-the-rest': lambda non_merged__out__sorted, result:
+               forall_range(0, len(non_merged__out__sorted), lambda k: result + 1 < non_merged__out__sorted[k][0]),
+           }, raises_only=())
+
+M.loop(P_RM + ':_merge_head_to', 0,
+       invariant=lambda _i, initial, segments, non_merged__out__sorted, old, n:
+       initial >= old
+       and len(non_merged__out__sorted) <= _i
+       and forall_range(0, len(non_merged__out__sorted), lambda k:
+                        non_merged__out__sorted[k] == segments[_i - len(non_merged__out__sorted) + k])
+       and forall_range(0, len(non_merged__out__sorted), lambda k: initial + 1 < non_merged__out__sorted[k][0])
+       and iff(n <= initial or in_some(non_merged__out__sorted, n), n <= old or in_some_before(segments, _i, n)),
+       modifies=dict(initial=Int, non_merged__out__sorted=MListOf(PAIR), from_to='local'))
+
+M.contract(P_RM + ':_merge_tail_from',
+           params=dict(initial=Int, segments=ListOf(PAIR), non_merged__out__sorted=MListOf(PAIR)),
+           ghosts=dict(n=Int), returns=Int, modifies=('non_merged__out__sorted',),
+           requires=lambda segments, non_merged__out__sorted:
+           normal_form(segments) and len(non_merged__out__sorted) == 0,
+           old=lambda initial: initial,
+           ensures={
+               'same-numbers': lambda initial, segments, non_merged__out__sorted, n, result:
+               iff(result <= n or in_some(non_merged__out__sorted, n), initial <= n or in_some(segments, n)),
+               'tail-only-grows': lambda initial, result: result <= initial,
+               'the-rest-is-a-prefix-of-the-segments': lambda segments, non_merged__out__sorted:
+               len(non_merged__out__sorted) <= len(segments)
+               and forall_range(0, len(non_merged__out__sorted), lambda k:
+               non_merged__out__sorted[k] == segments[k]),
+               'the-rest-is-in-normal-form': lambda non_merged__out__sorted: normal_form(non_merged__out__sorted),
+               'a-line-number-lies-between-the-rest-and-the-tail': lambda non_merged__out__sorted, result:
+               forall_range(0, len(non_merged__out__sorted), lambda k: non_merged__out__sorted[k][1] + 1 < result),
+           }, raises_only=())
+
+
+def in_some_between(xs, start, end, n):
+    return exists_range(start, end, lambda k: seg_mem(xs[k], n))
+
+
+M.loop(P_RM + ':_merge_tail_from', 0,
+       invariant=lambda _i, initial, segments, non_merged__out__sorted, old, n:
+       initial <= old
+       and len(non_merged__out__sorted) <= _i
+       and forall_range(0, len(non_merged__out__sorted), lambda k:
+                        non_merged__out__sorted[k] == segments[len(segments) - _i + k])
+       and forall_range(0, len(non_merged__out__sorted), lambda k: non_merged__out__sorted[k][1] + 1 < initial)
+       # (the members of the output list are described through the segments they are: no index shift by insert(0, .))
+       and iff(initial <= n or in_some_between(segments, len(segments) - _i,
+                                               len(segments) - _i + len(non_merged__out__sorted), n),
+               old <= n or in_some_between(segments, len(segments) - _i, len(segments), n)),
+       modifies=dict(initial=Int, non_merged__out__sorted=MListOf(PAIR), from_to='local'))
